@@ -57,6 +57,18 @@ CHECKS = {
              "spawned-interpreter solo oracle. Schedules are bounded (<= 3 preemptions at segment granularity) plus random fine-grained ones.",
         technique="TLA+ model checking (TLC) of Isolation.tla + schedule replay under a deterministic scheduler + trace validation (IsoTrace.tla)",
         design="§6 C13"),
+    "C15": dict(
+        level="model_checking",
+        text="The option space {width 0/40/88} x plaintext x semantic x cleanups x smartquotes x ellipses x list-spacing x 15 entry points "
+             "(CLI file/stdin to stdout/-o/in place, --auto, several files, reformat_file, reformat_files, reformat_text, three usage "
+             "errors) is finite; TLC explores spec/EntryPoints.tla completely (option record threaded argv -> Options -> reformat_files "
+             "-> reformat_file -> reformat_text -> sink; SinkCorrect; three re-wiring mutants of the model are rejected). Every point is "
+             "executed on the real code on a probe document that separates all option points (checked), and spec/EntryTrace.tla "
+             "validates each observation: bytes equal reformat_text(probe, **Expected), exit code, nothing else written, per-file results.",
+        note="Trusted: in-process cli.main with redirected stdio (a seeded subset is re-run as real subprocesses); the reference is the "
+             "text API of the same tree (agreement, not absolute correctness).",
+        technique="TLA+ model checking (TLC) of a complete finite product + execution of every point + trace validation (EntryTrace.tla)",
+        design="§6 C15"),
 }
 
 NOT_YET = "check not built yet in this phase (planned, see DESIGN.md §6)"
